@@ -6,6 +6,9 @@ depth 1   every condition of the value tables below in EVERY spelling: every key
           operator spelling (== eq != ne < lt <= le > gt >= ge, implicit equality, =~) x every
           literal style (bare / 'single' / "double"; int / float) + reversed comparisons
           (`10 <= resid`, the form used in the documentation of ranges) + ranges + implicit lists.
+          + operator-like literals (NE Ne OR AND NOT TO EQ LT ... in upper / mixed case): every string
+          keyword alias x every such word alone, with == != eq ne, reversed, quoted and bare, and as
+          first / middle / last element of implicit lists; and the same next to every connective.
 depth 2   every tree  leaf | not leaf | leaf conn leaf  over the representative leaves REPS2
           (one per syntactic class and operator spelling) x every connective spelling
           (and && or ||, not !), rendered flat / minimally parenthesised / fully parenthesised /
@@ -33,7 +36,7 @@ NUM_VALUES = {
     # canonical keyword: (comparands, implicit-equality values, lists, ranges, reversed comparands)
     "index": (["20", "9.5"], ["10"], [("0", "15", "32")], [("5", "25"), ("9.5", "33")], ["20"]),
     "n_bonds": (["2", "1.5"], ["3"], [("0", "3")], [("1", "2")], ["2"]),
-    "mass": (["13", "5.5"], [], [], [("5.5", "20"), ("13", "33.5")], ["20"]),
+    "mass": (["13", "5.5"], [], [], [("5.5", "21"), ("13", "33.5")], ["21"]),
     "residue": (["3", "101.5"], ["1"], [("1", "101", "203")], [("2", "101")], ["3"]),
     "resid": (["3", "6.5"], ["4"], [("0", "5", "8")], [("1", "3")], ["10"]),
     "chainid": (["1", "0.5"], ["2"], [("0", "3")], [("1", "2")], ["1"]),
@@ -77,6 +80,7 @@ def depth1():
             for rx in regexes:
                 for st in ("single", "double"):
                     out.append(("%s =~ %s" % (a, q(rx, st)), ("regex", c, rx), "regex"))
+    out += oplike_depth1()
     for c, (vals, impl, lists, ranges, rvals) in NUM_VALUES.items():
         for a in R.NUM_KW[c]:
             for v in vals:
@@ -93,6 +97,64 @@ def depth1():
                 out.append(("%s %s" % (a, " ".join(lst)), ("list", c, tuple(_num(v) for v in lst)), "list-num"))
             for lo, hi in ranges:
                 out.append(("%s %s to %s" % (a, lo, hi), ("range", c, _num(lo), _num(hi)), "range"))
+    return out
+
+
+# ------------------------------------------------------------------------------------------------
+# literals spelled like operator words in another letter case.  Bare words are ordinary string
+# literals; only the documented lower-case spellings (and or not to eq ne lt le gt ge) are operators.
+# NE / Ne really occur in the fixture (arginine N-epsilon, a neon atom); the others select nothing
+# by themselves but must not change what the rest of the expression selects.
+# ------------------------------------------------------------------------------------------------
+OPLIKE_WORDS = ["NE", "Ne", "OR", "AND", "NOT", "TO", "EQ", "LT", "LE", "GT", "GE", "Or", "And", "Not", "To", "Lt"]
+OPLIKE_PARTNERS = {   # canonical string keyword -> (partner literal, second partner) that occur in the fixture
+    "name": ("CZ", "CA"), "type": ("C", "Na"), "resname": ("ARG", "ALA"), "rescode": ("R", "A"),
+    "segment_id": ("SC", "SA"),
+}
+
+
+def oplike_depth1():
+    """every string keyword alias x every operator-like word: alone / == != (symbolic and word
+    spelling) / reversed / quoted and bare / first, middle, last element of an implicit list"""
+    out = []
+    for c, (p1, p2) in OPLIKE_PARTNERS.items():
+        for a in R.STR_KW[c]:
+            for w in OPLIKE_WORDS:
+                for st in QUOTES:
+                    out.append(("%s %s" % (a, q(w, st)), ("cmp", c, "==", w), "oplike-impl"))
+                for op in ("==", "!="):
+                    for sp in R.CMP_OPS[op]:
+                        out.append(("%s %s %s" % (a, sp, w), ("cmp", c, op, w), "oplike-cmp"))
+                    out.append(("%s %s %s" % (a, R.CMP_OPS[op][0], q(w, "single")), ("cmp", c, op, w), "oplike-cmp"))
+                out.append(("%s == %s" % (w, a), ("cmp", c, "==", w), "oplike-rcmp"))
+                for lst in ((w, p1), (p1, w), (p1, w, p2), (w, p1, p2), (p1, p2, w)):
+                    out.append(("%s %s" % (a, " ".join(lst)), ("list", c, lst), "oplike-list"))
+                    # quoted operator-like word, bare partners
+                    out.append(("%s %s" % (a, " ".join(q(v, "single") if v == w else v for v in lst)),
+                                ("list", c, lst), "oplike-list"))
+    return out
+
+
+def oplike_trees(seed):
+    """operator-like literals next to real connectives: every tree  X conn P | P conn X | not X  with
+    X in {kw W, kw W p, kw p W} (kw in name, resname) and P in {protein, name CZ / resname ARG}"""
+    names = {}
+    for tab in (R.BOOL_KW, R.STR_KW):
+        for c, als in tab.items():
+            names[c] = als[seed % len(als)]
+    out = []
+    for c in ("name", "resname"):
+        p1 = OPLIKE_PARTNERS[c][0]
+        partners = leaves([("protein", names["protein"]), ("%s=%s" % (c, p1), "%s %s" % (names[c], p1))])
+        xs = []
+        for w in OPLIKE_WORDS:
+            xs += [("%s=%s" % (c, w), "%s %s" % (names[c], w)),
+                   ("%s in %s,%s" % (c, w, p1), "%s %s %s" % (names[c], w, p1)),
+                   ("%s in %s,%s" % (c, p1, w), "%s %s %s" % (names[c], p1, w))]
+        xs = leaves(xs)
+        for sp in R.NOT_SP:
+            out += [("not", sp, x) for x in xs]
+        out += bins(xs, partners) + bins(partners, xs)
     return out
 
 
